@@ -244,7 +244,9 @@ def update_dictionary(current, update):
     Expects current to be a dictionary, with no restriction on the types of objects
     stored within it, and no defaults values.
     """
-    result = current
+    # work on a copy: ``current`` may be shared with the schema default
+    # or with other variables that were initialized from the same object
+    result = dict(current)
 
     for key, value in update.items():
         if key == "_add":
@@ -256,6 +258,7 @@ def update_dictionary(current, update):
             for k in value:
                 del result[k]
         elif key in result:
+            result[key] = dict(result[key])
             result[key].update(value)
         else:
             raise Exception(f"Invalid dict_value_updater key: {key}")
